@@ -32,6 +32,7 @@ from pathlib import Path
 from src.core.base import BaseLintContext, BaseLintRule
 from src.core.constants import HEADER_SCAN_LINES, IgnoreDirective, Language, split_lines
 from src.core.types import Severity, Violation
+from src.core.linter_utils import path_in_project
 from src.linter_config.ignore import get_ignore_parser
 from src.linter_config.rule_matcher import rule_matches
 
@@ -160,7 +161,7 @@ class CollectionPipelineRule(BaseLintRule):  # thailint: ignore[srp,dry]
         if not context.file_path:
             return False
 
-        file_path = Path(context.file_path)
+        file_path = Path(path_in_project(context))  # the path inside the project decides
         return any(self._matches_pattern(file_path, pattern) for pattern in config.ignore)
 
     def _matches_pattern(self, file_path: Path, pattern: str) -> bool:
